@@ -665,6 +665,12 @@ func TestCheck(t *testing.T) {
 			evalTls(t, r, tc)
 			return
 		}
+		if probe.Family == "history" {
+			var hc HistCase
+			r.DecodeReplay(&hc)
+			evalHist(t, r, hc)
+			return
+		}
 		if probe.Family == "ws-carrier" {
 			var wc WsCase
 			r.DecodeReplay(&wc)
@@ -712,6 +718,14 @@ func TestCheck(t *testing.T) {
 		}
 		wc := wc
 		r.Guard(idx, 60*time.Second, "hang|server|ws-carrier", wc.String(), wc, func() { evalWs(t, r, wc) })
+	}
+	for i, hc := range histCases() {
+		idx := len(all) + 5000 + i
+		if !r.Mine(idx) {
+			continue
+		}
+		hc := hc
+		r.Guard(idx, 60*time.Second, "hang|server|history", hc.String(), hc, func() { evalHist(t, r, hc) })
 	}
 	r.Note("ws_carrier_cases", len(wsCases(r.Thorough())))
 	r.Note("inputs_total", len(all))
